@@ -43,6 +43,10 @@ def long_runs(n, blank=' '):
             '.byte ' + '0a' * (n // 2 + 1) + 'H z', '.fill ' + 'count_of_things_' * (n // 16 + 1) + ' 0', '.org ' + '7' * n + ' "ZQ" x',
             'K_run3 = ' + 'f' * n + ' ]', '#if ' + 'S' * n + ' =', '#if ' + '9' * n + ' == x y', '.zero ' + 'z' * n + ' 1',
             'ldi ' + 'v' * n + ' w', 'ldi ' + '5' * n + ' 6', '.2byte 1, ' + 'q' * n + ' r',
+            # long words inside operand forms that cannot be completed (unterminated brace / bracket, trailing junk)
+            'bra {' + 'a' * n, 'bra {' + '1' * n + ' x', 'bra { ' + 'lbl_' * (n // 4 + 1) + ' + 1', 'ldx [sp+' + 'L' * n, 'ldx [' + 'q' * n + ' x]',
+            'lix sp+' + 'L' * n + ' x', 'liy [a+' + '7' * n, 'sel ' + 'k' * n + ' k', 'mv2 a, ' + 'w' * n + ' 1', 'ldq [' + '9' * n,
+            'psh ' + 'p' * n + '++', 'inr ' + 'r' * n + ' r', 'jmp ' + 'j' * n + ' +', 'bra {' + 'a' * n + '} x',
             # long conditional chains and deep nesting (work must not multiply per branch / level)
             '\n'.join(['#if 0', '.byte 1'] + ['#elif 0\n.byte 2'] * min(n, 120) + ['#else', '.byte 3', '#endif']),
             '\n'.join(['#if 0', '.byte 1'] + ['#elif 0\n.byte 2'] * min(n, 120) + ['#elif 1', '.byte 3', '#endif']),
@@ -131,7 +135,10 @@ def corrupt(rng, lines, kind):
                           '.fill 0, no_such_fill_value', '.fill 0, undefined_v + 1', '.fill 3, nope_val', '.fill missing_count, 1',
                           '.zero nope_cnt', '.zerountil not_defined_addr', '#mute\n.byte muted_undefined_ref\n#unmute',
                           '.org undefined_origin', '.align undefined_page', 'K_bad = undefined_in_constant + 1',
-                          'mv2 a, unknown_imm', 'ldx [sp+undefined_off]', 'lix sp+undefined_idx'])
+                          'mv2 a, unknown_imm', 'ldx [sp+undefined_off]', 'lix sp+undefined_idx',
+                          # a local label that exists, but not in the region of the reference
+                          'c14_g1:\n.c14_loc:\nnop\n_c14_f:\njmp .c14_loc', 'c14_g2:\n.c14_loc2:\nnop\nc14_g3:\njmp .c14_loc2',
+                          'c14_g4:\n.c14_loc3:\nnop\n.org $780\njmp .c14_loc3', '_c14_f2:\n.c14_loc4:\nnop\n_c14_f3:\n.2byte .c14_loc4'])
         L.insert(i, _maybe_muted(rng, ins))
         return L, 'unresolvable-label', pos_tag(i)
     if kind == 'no-variant':
